@@ -10,12 +10,17 @@ from vf import common, chart as C, trace as T, xform, c01lib, refscxml, tables
 from vf.common import Check
 from vf.checks.c01 import NONTRIVIAL
 
-TOK = re.compile(r'Establishing optimal transition set for event (\d+)|Exiting state (\d+)|Entering state (\d+)|Taking transition (\d+)|([NXTHIZP]\d+): (-?\d+)|Found (NO) transitions|Machine (finished)|(Entering initial default completion)')
+TOK = re.compile(r'Establishing optimal transition set for event (\d+)|Exiting state (\d+)|Entering state (\d+)|Taking transition (\d+)|([NXTHIZPD]\d+): (-?\d+)|Found (NO) transitions|Machine (finished)|(Entering initial default completion)')
 
 
 def make_case(seed):
     rng = random.Random(seed)
-    ch, hist = C.gen_chart(seed, data=True, errors=False)
+    if seed < 0:
+        ch, hist = C.gen_done_chart(-seed, ('const', 1))       # done.state family (spin prints a log only when it has an expr)
+        ch.data = {}
+        hist = hist[:5]
+    else:
+        ch, hist = C.gen_chart(seed, data=True, errors=False)
     # the external history is sent by the document itself, once, from the first state entered by default
     first = ch.root.states()[0] if not ch.root.initial_attr else ch.by_id[ch.root.initial_attr[0]]
     ch.data['g'] = 0
@@ -168,7 +173,7 @@ def main(tier, replay):
     outroot = common.scratch('c06')
     n = 200 if tier == 'quick' else 4000
     base = chk.seed * 1000000 + 606
-    seeds = [('m%d' % i, base + i) for i in range(n)]
+    seeds = [('m%d' % i, base + i) for i in range(n)] + [('d%d' % i, -(base + 700000 + i)) for i in range(n // 5)]
     jobs = [(xbin, dbin, os.path.join(outroot, 'w%d' % (i // 10)), seeds[i:i + 10]) for i in range(0, len(seeds), 10)]
     items = 0; sd = 0; sk = 0
     for out in common.pmap(work, jobs):
